@@ -209,8 +209,8 @@ pub fn run(ctx: &Ctx, which: &str) -> ! {
         let Some(spec) = specs.into_iter().find(|s| s.name == name) else { machinery_error(format!("unknown program pair {name}")) };
         let env = envs[0].lock().unwrap_or_else(|e| e.into_inner());
         let inst = c10_instant(&spec.sys);
-        let run1 = run_schedule(&env, &spec.sys, &RunOpts { prefix: &sched, allow_kill: sched.iter().any(|c| *c >= 100), instant: Some(&inst) });
-        let run2 = run_schedule(&env, &spec.sys, &RunOpts { prefix: &sched, allow_kill: sched.iter().any(|c| *c >= 100), instant: Some(&inst) });
+        let run1 = run_schedule(&env, &spec.sys, &RunOpts { knobs: Knobs::default(), prefix: &sched, allow_kill: sched.iter().any(|c| *c >= 100), instant: Some(&inst) });
+        let run2 = run_schedule(&env, &spec.sys, &RunOpts { knobs: Knobs::default(), prefix: &sched, allow_kill: sched.iter().any(|c| *c >= 100), instant: Some(&inst) });
         if outcome(&run1) != outcome(&run2) || run1.labels != run2.labels {
             machinery_error("replaying the same schedule twice gave different observations");
         }
@@ -225,14 +225,14 @@ pub fn run(ctx: &Ctx, which: &str) -> ! {
     {
         let spec = &pair_systems(&[("P1", "P2")], &[true])[0];
         let env = envs[0].lock().unwrap_or_else(|e| e.into_inner());
-        let base = run_schedule(&env, &spec.sys, &RunOpts { prefix: &[], allow_kill: false, instant: None });
+        let base = run_schedule(&env, &spec.sys, &RunOpts { knobs: Knobs::default(), prefix: &[], allow_kill: false, instant: None });
         let mut pre = base.choices[..base.points.len().min(6)].to_vec();
         if let Some(i) = base.points.iter().position(|p| p.enabled.len() > 1) {
             pre = base.choices[..i].to_vec();
             pre.push(1);
         }
-        let a = run_schedule(&env, &spec.sys, &RunOpts { prefix: &pre, allow_kill: false, instant: None });
-        let b = run_schedule(&env, &spec.sys, &RunOpts { prefix: &pre, allow_kill: false, instant: None });
+        let a = run_schedule(&env, &spec.sys, &RunOpts { knobs: Knobs::default(), prefix: &pre, allow_kill: false, instant: None });
+        let b = run_schedule(&env, &spec.sys, &RunOpts { knobs: Knobs::default(), prefix: &pre, allow_kill: false, instant: None });
         if a.labels != b.labels || outcome(&a) != outcome(&b) {
             machinery_error(format!("scheduler is not deterministic: same schedule, different observations\n{:?}\n{:?}", a.labels, b.labels));
         }
